@@ -249,7 +249,7 @@ pub fn parse<'input>(
         s.advance(3);
     }
 
-    if s.starts_with(b"<?xml ") {
+    if s.starts_with_xml_decl() {
         parse_declaration(s)?;
     }
 
@@ -979,6 +979,11 @@ impl<'input> Stream<'input> {
         while self.starts_with_space() {
             self.advance(1);
         }
+    }
+
+    // `<?xml` followed by any white space, not just by a space.
+    fn starts_with_xml_decl(&self) -> bool {
+        self.starts_with(b"<?xml") && self.as_bytes().get(5).map_or(false, |b| b.is_xml_space())
     }
 
     #[inline]
